@@ -1,7 +1,11 @@
 import ZipVerif.Lemmas.TreeFacts
 /-
-The same declarative reading for the streaming extractor's expected tree `treeOfStream`
-(all entries placed first, all modes applied afterwards).
+What the expected tree `treeOf` (all entries placed in archive order, then the recorded modes applied,
+deepest first) contains, read declaratively (for consistent archives on a fresh target):
+  * nothing but what the archive wants, and every directory on the way to any entry
+    (`treeOf_kinds_dirs`);
+  * at the path of an entry that no later entry targets again: a directory / a file with exactly the
+    entry's bytes, with the entry's recorded mode when it has one (`treeOf_last`).
 -/
 
 namespace ZipVerif.Model.Extract
@@ -97,7 +101,7 @@ theorem putAll_content {c : Cfg} {root : Path} {es : List EntryView} (hpc : Perm
     ∃ n, (putAll c root (pre ++ e :: post) fs).lookup (root ++ target e) = some n ∧ ContentIs e n := by
   rw [putAll_append]
   obtain ⟨_, hi1, hk1, _, _⟩ :=
-    streamFiles_eq hpc hDF pre (fun e' he' => hall e' (by simp [he'])) fs hi hk
+    placeFiles_eq hpc hDF false pre (fun e' he' => hall e' (by simp [he'])) fs hi hk
   have he := hall e (by simp)
   obtain ⟨_, hholds, _⟩ := putEntry_facts hi1 hk1 hpc hDF he
   obtain ⟨_, hi2, hk2, _, _⟩ := placeEntry_eq hi1 hk1 hpc hDF he false
@@ -127,73 +131,186 @@ theorem putAll_dirs {c : Cfg} {root : Path} {es : List EntryView} (hpc : PermCfg
     rcases List.mem_cons.mp he with rfl | he
     · obtain ⟨_, _, hdirs⟩ := putEntry_facts hi hk hpc hDF he0
       obtain ⟨m, hm⟩ := hdirs r hr
-      obtain ⟨_, _, _, hg, _⟩ := streamFiles_eq hpc hDF rest hrest' _ hi1 hk1
+      obtain ⟨_, _, _, hg, _⟩ := placeFiles_eq hpc hDF false rest hrest' _ hi1 hk1
       obtain ⟨m1, hm1, _⟩ := hg.1 _ m hm
       exact ⟨m1, hm1⟩
     · exact ih hrest' _ hi1 hk1 e he r hr
 
 /-! ### all modes applied -/
 
-theorem setModes_inv {c : Cfg} {root : Path} {es : List EntryView} (rest : List EntryView)
-    (hrest : ∀ e ∈ rest, EntryOK c es e) (fs : FS) (hi : Inv c root fs) (hk : Kinds root es fs)
-    (hpl : ∀ e ∈ rest, Placed c root fs e.name) :
-    Kinds root es (setModes root (rest.map fun e => (e.name, e.mode)) fs) ∧
-      Grows c fs (setModes root (rest.map fun e => (e.name, e.mode)) fs) := by
-  induction rest generalizing fs with
-  | nil => exact ⟨hk, Grows.refl c fs⟩
-  | cons e rest ih =>
-    have he := hrest e (by simp)
-    have hfile : isDirName e.name = false → tailDot e.name = false ∧ e.name ≠ [] := by
-      intro hd
-      obtain ⟨h1, h2⟩ := he.file hd
-      refine ⟨h1, ?_⟩
-      intro e0
-      rw [e0, relComps_nil] at h2; simp [lastNormal] at h2
-    obtain ⟨_, hi2, hk2, hg2⟩ :=
-      applyMode_eq (mode := e.mode) hi hk (hpl e (by simp)) he.safe hfile he.perms
-    obtain ⟨hk3, hg3⟩ := ih (fun e' he' => hrest e' (List.mem_cons_of_mem _ he')) _ hi2 hk2
-      (fun e' he' => (hpl e' (List.mem_cons_of_mem _ he')).grows hg2)
-    simp only [List.map_cons, setModes]
-    exact ⟨hk3, hg2.trans hg3⟩
+theorem setMode_kinds {root : Path} {es : List EntryView} {fs : FS} (hk : Kinds root es fs) (n : Name)
+    (mode : Option Nat) : Kinds root es (setMode root n mode fs) := by
+  intro r nd hl
+  cases mode with
+  | none => exact hk r nd hl
+  | some md =>
+    simp only [setMode, chmodAt] at hl
+    split at hl
+    · next m1 h1 =>
+      by_cases e1 : root ++ r = resolveFrom root (relComps n)
+      · rw [e1, lookup_set_self] at hl; cases hl; exact hk r _ (e1 ▸ h1)
+      · rw [lookup_set_ne _ _ e1] at hl; exact hk r nd hl
+    · next b m1 h1 =>
+      by_cases e1 : root ++ r = resolveFrom root (relComps n)
+      · rw [e1, lookup_set_self] at hl; cases hl; exact hk r _ (e1 ▸ h1)
+      · rw [lookup_set_ne _ _ e1] at hl; exact hk r nd hl
+    · exact hk r nd hl
 
-theorem treeOfStream_last {c : Cfg} {root : Path} {es : List EntryView} (hpc : PermCfg c)
+theorem setModes_kinds {root : Path} {es : List EntryView} (ms : List (Name × Option Nat)) (fs : FS)
+    (hk : Kinds root es fs) : Kinds root es (setModes root ms fs) := by
+  induction ms generalizing fs with
+  | nil => exact hk
+  | cons m ms ih => simp only [setModes]; exact ih _ (setMode_kinds hk m.1 m.2)
+
+theorem setModes_dir (root : Path) (ms : List (Name × Option Nat)) (fs : FS) (q : Path) (m : Nat)
+    (h : fs.lookup q = some (.dir m)) : ∃ m', (setModes root ms fs).lookup q = some (.dir m') := by
+  induction ms generalizing fs m with
+  | nil => exact ⟨m, h⟩
+  | cons x ms ih =>
+    simp only [setModes]
+    by_cases hq : q = resolveFrom root (relComps x.1)
+    · subst hq
+      have := setMode_at root x.1 x.2 fs _ h
+      simp only [withMode] at this
+      exact ih _ _ this
+    · exact ih _ m (by rw [setMode_other _ _ _ _ _ hq]; exact h)
+
+theorem pendingOf_append (a b : List (Name × Option Nat)) :
+    pendingOf (a ++ b) = pendingOf a ++ pendingOf b := by
+  induction a with
+  | nil => rfl
+  | cons m a ih =>
+    obtain ⟨n, md⟩ := m
+    cases md with
+    | none => simpa [pendingOf] using ih
+    | some m0 => simp [pendingOf, ih]
+
+/-- **Last one wins.** -/
+theorem treeOf_last {c : Cfg} {root : Path} {es : List EntryView} (hpc : PermCfg c)
     (hDF : ∀ r, DirAt es r → FileAt es r → False) (pre post : List EntryView) (e : EntryView)
     (hall : ∀ e' ∈ pre ++ e :: post, EntryOK c es e') (fs : FS) (hi : Inv c root fs)
     (hk : Kinds root es fs) (hlast : ∀ e' ∈ post, target e' ≠ target e) :
-    ∃ n, (treeOfStream c root (pre ++ e :: post) fs).lookup (root ++ target e) = some n ∧ NodeIs e n := by
+    ∃ n, (treeOf c root (pre ++ e :: post) fs).lookup (root ++ target e) = some n ∧ NodeIs e n := by
   have htar : ∀ e' ∈ pre ++ e :: post, resolveFrom root (relComps e'.name) = root ++ target e' := by
     intro e' he'
     have := resolveFrom_root_safe root (hall e' he').safe
     rwa [List.reverse_reverse] at this
   obtain ⟨n0, hn0, hc0⟩ := putAll_content hpc hDF pre post e hall fs hi hk hlast
-  unfold treeOfStream
-  rw [List.map_append, List.map_cons, setModes_append]
-  simp only [setModes]
-  obtain ⟨n1, hn1, hc1⟩ := setModes_content root (pre.map fun e => (e.name, e.mode)) _ e _ ⟨n0, hn0, hc0⟩
-  have he := htar e (by simp)
-  rw [← he] at hn1
-  have h2 := setMode_at root e.name e.mode _ n1 hn1
-  refine ⟨withMode e.mode n1, ?_, nodeIs_withMode hc1⟩
-  rw [setModes_other, ← he]
-  · exact h2
-  · intro m hm
-    obtain ⟨e', he', rfl⟩ := List.mem_map.mp hm
-    simp only
-    rw [htar e' (by simp [he'])]
-    intro h
-    exact hlast e' he' (List.append_cancel_left h).symm
+  unfold treeOf
+  cases hmode : e.mode with
+  | none =>
+    obtain ⟨n1, hn1, hc1⟩ := setModes_content root
+      (modeOrder ((pre ++ e :: post).map fun e => (e.name, e.mode))) _ e _ ⟨n0, hn0, hc0⟩
+    refine ⟨n1, hn1, ?_⟩
+    unfold ContentIs at hc1
+    unfold NodeIs
+    split
+    · next hd => rw [if_pos hd] at hc1; obtain ⟨m, rfl⟩ := hc1; exact ⟨m, rfl, by simp [hmode]⟩
+    · next hd => rw [if_neg hd] at hc1; obtain ⟨m, rfl⟩ := hc1; exact ⟨m, rfl, by simp [hmode]⟩
+  | some md =>
+    -- where the entry's pending mode ends up in the order of application
+    have hsplit : pendingOf ((pre ++ e :: post).map fun e => (e.name, e.mode)) =
+        pendingOf (pre.map fun e => (e.name, e.mode)) ++ (pathDepth e.name, e.name, md) ::
+          pendingOf (post.map fun e => (e.name, e.mode)) := by
+      rw [List.map_append, pendingOf_append, List.map_cons, hmode]; rfl
+    obtain ⟨A, B, hAB, hB⟩ := sortModes_split (pendingOf (pre.map fun e => (e.name, e.mode)))
+      (pendingOf (post.map fun e => (e.name, e.mode))) (pathDepth e.name, e.name, md)
+    have hmem : ∀ y ∈ B, y ∈ sortModes (pendingOf ((pre ++ e :: post).map fun e => (e.name, e.mode))) := by
+      intro y hy; rw [hsplit, hAB]; simp [hy]
+    unfold modeOrder
+    rw [hsplit, hAB, List.map_append, List.map_cons, setModes_append]
+    simp only [setModes]
+    obtain ⟨n1, hn1, hc1⟩ := setModes_content root (A.map fun p => (p.2.1, some p.2.2)) _ e _ ⟨n0, hn0, hc0⟩
+    have he := htar e (by simp)
+    rw [← he] at hn1
+    have h2 := setMode_at root e.name (some md) _ n1 hn1
+    refine ⟨withMode e.mode n1, ?_, nodeIs_withMode hc1⟩
+    rw [setModes_other, ← he, hmode]
+    · exact h2
+    · intro m hm
+      obtain ⟨y, hy, rfl⟩ := List.mem_map.mp hm
+      simp only
+      -- `y` is the pending mode of some entry `e'`
+      obtain ⟨hy1, hy2⟩ := mem_pendingOf.mp (mem_sortModes.mp (hmem y hy))
+      obtain ⟨e', he', hye⟩ := List.mem_map.mp hy1
+      simp only [Prod.mk.injEq] at hye
+      rw [← hye.1, htar e' he']
+      intro h
+      have hteq : target e = target e' := List.append_cancel_left h
+      rcases hB y hy with hpost | hlt
+      · obtain ⟨hp1, _⟩ := mem_pendingOf.mp hpost
+        obtain ⟨e'', he'', hye''⟩ := List.mem_map.mp hp1
+        simp only [Prod.mk.injEq] at hye''
+        have : target e'' = target e' := by unfold target; rw [hye''.1, hye.1]
+        exact hlast e'' he'' (by rw [this, hteq])
+      · simp only at hlt
+        obtain ⟨p0, hp0⟩ := Option.isSome_iff_exists.mp (hall e (by simp)).enclosed
+        obtain ⟨p1, hp1⟩ := Option.isSome_iff_exists.mp (hall e' he').enclosed
+        rw [hy2, ← hye.1, pathDepth_eq hp0, pathDepth_eq hp1] at hlt
+        unfold target at hteq
+        rw [hteq] at hlt
+        omega
 
-theorem treeOfStream_kinds_dirs {c : Cfg} {root : Path} {es : List EntryView} (hpc : PermCfg c)
+theorem treeOf_kinds_dirs {c : Cfg} {root : Path} {es : List EntryView} (hpc : PermCfg c)
     (hDF : ∀ r, DirAt es r → FileAt es r → False) (hall : ∀ e ∈ es, EntryOK c es e) (fs : FS)
     (hi : Inv c root fs) (hk : Kinds root es fs) :
-    Kinds root es (treeOfStream c root es fs) ∧
-      ∀ e ∈ es, ∀ r ∈ dirPaths e, ∃ m, (treeOfStream c root es fs).lookup (root ++ r) = some (.dir m) := by
-  obtain ⟨_, hi1, hk1, _, hp1⟩ := streamFiles_eq hpc hDF es hall fs hi hk
-  obtain ⟨hk2, hg2⟩ := setModes_inv es hall _ hi1 hk1 hp1
-  refine ⟨hk2, ?_⟩
+    Kinds root es (treeOf c root es fs) ∧
+      ∀ e ∈ es, ∀ r ∈ dirPaths e, ∃ m, (treeOf c root es fs).lookup (root ++ r) = some (.dir m) := by
+  obtain ⟨_, _, hk1, _, _⟩ := placeFiles_eq hpc hDF false es hall fs hi hk
+  refine ⟨setModes_kinds _ _ hk1, ?_⟩
   intro e he r hr
   obtain ⟨m, hm⟩ := putAll_dirs hpc hDF es hall fs hi hk e he r hr
-  obtain ⟨m', hm', _⟩ := hg2.1 _ m hm
-  exact ⟨m', hm'⟩
+  exact setModes_dir root _ _ _ m hm
+
+/-! ### names of ordinary components: any permission bits -/
+
+theorem resolveFrom_normal_length (st : Path) (cs : List Comp) (h : cs.all isNormal = true) :
+    (resolveFrom st cs).length = st.length + cs.length := by
+  induction cs generalizing st with
+  | nil => simp [resolveFrom]
+  | cons x cs ih =>
+    simp only [List.all_cons, Bool.and_eq_true] at h
+    cases x with
+    | normal s =>
+      have := ih (st ++ [s]) h.2
+      simp only [resolveFrom, List.foldl_cons, resolveStep, List.length_append, List.length_cons,
+        List.length_nil] at this ⊢
+      omega
+    | rootDir => simp [isNormal] at h
+    | curDir => simp [isNormal] at h
+    | parentDir => simp [isNormal] at h
+
+/-- For names made of ordinary components the directories a path is walked through are proper
+ancestors of its end: no recorded mode can lock the extractor out, whatever its bits. -/
+theorem unlocked_of_plain {es : List EntryView} (h : PlainNames es) : Unlocked es := by
+  intro e1 _ e2 he2 _ _ _ _ _ hmem
+  obtain ⟨hdot, hall⟩ := h e2 he2
+  unfold searched at hmem
+  rw [hdot] at hmem
+  simp only [Bool.false_eq_true, if_false, List.append_nil] at hmem
+  have hallr : (relComps e2.name).reverse.all isNormal = true := by
+    rw [List.all_reverse]; exact hall
+  have hlen2 : (target e2).length = (relComps e2.name).reverse.length := by
+    unfold target resolve
+    rw [resolveFrom_normal_length [] _ hall]; simp
+  cases hrr : (relComps e2.name).reverse with
+  | nil => rw [hrr] at hmem; simp [searchedR] at hmem
+  | cons x up =>
+    rw [hrr] at hmem hallr hlen2
+    simp only [searchedR] at hmem
+    obtain ⟨t, ht, hr⟩ := positionsR_mem hmem
+    have htall : t.reverse.all isNormal = true := by
+      rw [List.all_reverse]
+      simp only [List.all_cons, Bool.and_eq_true] at hallr
+      rw [List.all_eq_true] at hallr ⊢
+      intro y hy
+      exact hallr.2 y (ht.subset hy)
+    have hlen1 : (target e1).length = t.length := by
+      rw [hr]; unfold resolve
+      rw [resolveFrom_normal_length [] _ htall]; simp
+    have := ht.length_le
+    rw [hlen1, hlen2]
+    simp only [List.length_cons]
+    omega
 
 end ZipVerif.Model.Extract
